@@ -209,7 +209,7 @@ pub fn scenarios(tier: &str) -> Vec<Scenario> {
 
 pub fn run(tier: &str) -> ! {
 	let mut run = Run::new("C09", tier, "model_checking");
-	let budget = Budget::new(if tier == "thorough" { 5000.0 } else { 150.0 });
+	let budget = Budget::new(if tier == "thorough" { 1500.0 } else { 150.0 });
 	run.set("rule", json!("graph search from a state with one full 64-entry index page (uniform keys, zero salt = identity hashing): commits from {65th key of the page (growth to 17 bits), removal/replacement of keys still in the old index, a 3-key collision chain (equal in every index-visible bit) with one member removed, two more keys of the same half (second growth, triggered from a reindex batch), chain edits} (plus, in a scenario of its own, keys at the edges of the page search: partial key zero, compared 32-bit lane zero with non-zero partial key, lane all ones, with holes made in front of them) interleaved with every stage event incl. reindex batches (R) and reopen; after every event every key ever written is read and compared with the model. Crash scenarios: every file-operation boundary of every edge of the growth (creation of the new index file, batch records, DropTable, unlink of the old file) is a crash point with the C02 recovery oracle"));
 	run.assumptions = vec!["identity hashing needs the zero salt of the instrumentation build".into(), "at most 6 reindex-batch events per history".into()];
 	super::run_scenarios(&mut run, &scenarios(tier), &budget);
